@@ -30,6 +30,7 @@ Definition len (s : bytes) : Z := Z.of_nat (length s).
 Inductive err :=
 | ERange (argno : Z)        (* "#n out of range" *)
 | EOverflow                 (* "rep causes overflow" *)
+| ETooLarge                 (* "resulting string too large" *)
 | ENotInt.                  (* "arguments must be integers" (not generated: inputs are integers) *)
 
 Inductive res (A : Type) :=
@@ -134,6 +135,9 @@ Fixpoint repeat_bytes (s : bytes) (n : nat) : bytes :=
 Fixpoint rep_loop (n : nat) (s sep : bytes) : bytes :=
   match n with O => [] | S k => sep ++ s ++ rep_loop k s sep end.
 
+(* the largest result rep agrees to build (no Go allocation of more can succeed) *)
+Definition maxRepSize : Z := 2^40.
+
 Definition rep_im (s : bytes) (n : Z) (sep : option bytes) : res bytes :=
   if n <? 0 then Err (ERange 2) else
   if n =? 0 then Ok [] else
@@ -141,6 +145,7 @@ Definition rep_im (s : bytes) (n : Z) (sep : option bytes) : res bytes :=
   match sep with
   | None =>
     if negb (Z.quot (wrap (len s * n)) n =? len s) then Err EOverflow
+    else if wrap (n * len s) >? maxRepSize then Err ETooLarge
     else Ok (repeat_bytes s (Z.to_nat n))             (* strings.Repeat *)
   | Some sep =>
     let sz1 := wrap (n * len s) in
@@ -148,6 +153,7 @@ Definition rep_im (s : bytes) (n : Z) (sep : option bytes) : res bytes :=
     let sz := wrap (sz1 + sz2) in
     if negb (Z.quot sz1 n =? len s) || negb (Z.quot sz2 (wrap (n - 1)) =? len sep) || (sz <? 0)
     then Err EOverflow
+    else if sz >? maxRepSize then Err ETooLarge
     else if sz =? 0 then Ok []                         (* nothing to build: no n-fold loop *)
     else Ok (s ++ rep_loop (Z.to_nat (n - 1)) s sep)
   end.
